@@ -49,7 +49,7 @@ func init() {
 			Ops: func(tier string) []string {
 				var ops []string
 				for _, c := range tierConfigs(tier) {
-					ops = append(ops, "cfg:"+c.id)
+					ops = append(ops, fmt.Sprintf("cfg:%s@%d", c.id, c.maxLen))
 				}
 				return ops
 			},
@@ -73,13 +73,6 @@ func envInt(name string, def int) int {
 	return def
 }
 
-func histLen(tier string) int {
-	if tier == engine.Thorough {
-		return envInt("C10_LEN", 7)
-	}
-	return envInt("C10_LEN", 5)
-}
-
 func noDedupLen(tier string) int {
 	if tier == engine.Thorough {
 		return envInt("C10_NODEDUP", 3)
@@ -89,7 +82,7 @@ func noDedupLen(tier string) int {
 
 func stateCap(tier string) int {
 	if tier == engine.Thorough {
-		return envInt("C10_STATECAP", 600000)
+		return envInt("C10_STATECAP", 3000000)
 	}
 	return 0
 }
@@ -123,7 +116,6 @@ type config struct {
 	variants string   // body variants offered to defmethod (see seqref.go)
 	calls    []string // argument kind tuples offered to call (and used as probes)
 	user     bool
-	maxLen   int // histories of this configuration stop at this length (0 = the tier's bound)
 }
 
 func (c *config) cpls(args string) [][]string {
@@ -156,17 +148,18 @@ func tuples(per ...[]string) []string {
 var allConfigs = func() map[string]*config {
 	l := func(s ...string) []string { return s }
 	list := []*config{
-		// ---- quick
-		{id: "q1b", arity: 1, specs: l("fixnum", "rational", "t"), variants: "pbaw", calls: l("f", "r", "s")},
-		{id: "q1u", arity: 1, specs: l("vc1", "vc2", "vc3"), variants: "paw", calls: l("1", "2", "3"), user: true},
-		{id: "q1s", arity: 1, specs: l("fixnum", "integer"), variants: "pwsn", calls: l("f", "B")},
-		{id: "q2b", arity: 2, specs: l("fixnum,fixnum", "fixnum,real", "real,fixnum", "t,t"), variants: "paw", calls: l("f,f", "f,d", "d,f")},
-		// ---- thorough
-		{id: "t1b", arity: 1, specs: l("fixnum", "integer", "rational", "real", "t"), variants: "pbaw", calls: l("f", "B", "r", "d", "s")},
-		{id: "t1u", arity: 1, specs: l("vc1", "vc2", "vc3", "vc4"), variants: "pbaw", calls: l("1", "2", "3", "4"), user: true},
-		{id: "t1s", arity: 1, specs: l("fixnum", "integer", "real"), variants: "pwsn", calls: l("f", "B", "d")},
-		{id: "t2b", arity: 2, specs: append(tuples(l("fixnum", "real"), l("fixnum", "real")), "t,t"), variants: "pbaw", calls: l("f,f", "f,d", "d,f", "d,d")},
-		{id: "t2u", arity: 2, specs: tuples(l("vc1", "vc2"), l("vc1", "vc2")), variants: "paw", calls: l("1,1", "1,2", "2,1", "2,2"), user: true},
+		// 1 argument, built-in numeric chain (+ t; a symbol argument reaches only t), small and full
+		{id: "b1s", arity: 1, specs: l("fixnum", "rational", "t"), variants: "pbaw", calls: l("f", "r", "s")},
+		{id: "b1", arity: 1, specs: l("fixnum", "integer", "rational", "real", "t"), variants: "pbaw", calls: l("f", "B", "r", "d", "s")},
+		// 1 argument, user defclass chain vc1 < vc2 < vc3 < vc4
+		{id: "u1", arity: 1, specs: l("vc1", "vc2", "vc3", "vc4"), variants: "pbaw", calls: l("1", "2", "3", "4"), user: true},
+		// 1 argument, the three kinds of :around body (calls next / does not / asks next-method-p first)
+		{id: "s1", arity: 1, specs: l("fixnum", "integer", "real"), variants: "pwsn", calls: l("f", "B", "d")},
+		// 2 arguments, built-in classes, small and full
+		{id: "b2s", arity: 2, specs: l("fixnum,fixnum", "fixnum,real", "real,fixnum", "t,t"), variants: "paw", calls: l("f,f", "f,d", "d,f")},
+		{id: "b2", arity: 2, specs: append(tuples(l("fixnum", "real"), l("fixnum", "real")), "t,t"), variants: "pbaw", calls: l("f,f", "f,d", "d,f", "d,d")},
+		// 2 arguments, user classes
+		{id: "u2", arity: 2, specs: tuples(l("vc1", "vc2"), l("vc1", "vc2")), variants: "paw", calls: l("1,1", "1,2", "2,1", "2,2"), user: true},
 	}
 	m := map[string]*config{}
 	for _, c := range list {
@@ -175,21 +168,39 @@ var allConfigs = func() map[string]*config {
 	return m
 }()
 
-func tierConfigs(tier string) []*config {
-	ids := []string{"q1b", "q1u", "q1s", "q2b"}
+// tierCfg: a configuration and the history length explored for it in a tier.
+type tierCfg struct {
+	*config
+	maxLen int
+}
+
+// tierConfigs lists "id@len". C10_CFGS overrides it (development aid).
+func tierConfigs(tier string) []tierCfg {
+	spec := "b1s@5,u1@5,s1@5,b2s@5,u2@5"
 	if tier == engine.Thorough {
-		ids = []string{"t1b", "t1u", "t1s", "t2b", "t2u"}
+		spec = "b1s@7,u1@7,s1@7,b2s@7,u2@7,b1@6,b2@6"
 	}
 	if v := os.Getenv("C10_CFGS"); v != "" {
-		ids = strings.Split(v, ",")
+		spec = v
 	}
-	var out []*config
-	for _, id := range ids {
-		if c := allConfigs[id]; c != nil {
-			out = append(out, c)
+	var out []tierCfg
+	for _, item := range strings.Split(spec, ",") {
+		id, ls, _ := strings.Cut(item, "@")
+		n, _ := strconv.Atoi(ls)
+		if c := allConfigs[id]; c != nil && 0 < n {
+			out = append(out, tierCfg{c, n})
 		}
 	}
 	return out
+}
+
+func histLen(tier string) (n int) {
+	for _, tc := range tierConfigs(tier) {
+		if n < tc.maxLen {
+			n = tc.maxLen
+		}
+	}
+	return
 }
 
 func (c *config) slotLetters() string {
@@ -243,16 +254,17 @@ func (c *config) enabled(m *model) []string {
 func bound(tier string) string {
 	var parts []string
 	for _, c := range tierConfigs(tier) {
-		parts = append(parts, fmt.Sprintf("%s: %d-arg, specialiser tuples {%s}, bodies {%s}, call/probe tuples {%s} (%d operations)",
-			c.id, c.arity, strings.Join(c.specs, " "), c.variants, strings.Join(c.calls, " "), len(c.ops())))
+		parts = append(parts, fmt.Sprintf("%s: histories of length <= %d over a %d-arg generic function, defmethod/remove-method on specialiser tuples {%s} "+
+			"with bodies {%s}, call/probe tuples {%s} (%d operations)",
+			c.id, c.maxLen, c.arity, strings.Join(c.specs, " "), c.variants, strings.Join(c.calls, " "), len(c.ops())))
 	}
 	capNote := ""
 	if sc := stateCap(tier); 0 < sc {
-		capNote = fmt.Sprintf("; state cap %d (a capped run is not exhaustive: see notes/bfs_depth_completed)", sc)
+		capNote = fmt.Sprintf("; state cap %d (if hit, the run is reported as not exhaustive: see notes and bfs_depth_completed)", sc)
 	}
-	return fmt.Sprintf("all histories of length <= %d (after the configuration choice) up to equality of the real generic.Aux state, "+
-		"no deduplication up to length %d; every reached state additionally probed with every call tuple; configurations: %s%s",
-		histLen(tier), noDedupLen(tier), strings.Join(parts, " | "), capNote)
+	return fmt.Sprintf("every history up to the stated length per configuration (BFS depth = 1 configuration choice + history), up to equality of the "+
+		"real generic.Aux state, no deduplication up to length %d; every reached state additionally probed with every call tuple. %s%s",
+		noDedupLen(tier), strings.Join(parts, " | "), capNote)
 }
 
 // ------------------------------------------------------------------ Lisp text
@@ -461,8 +473,10 @@ func exec(spec string) (res engine.Result) {
 	if !strings.HasPrefix(hist[0], "cfg:") {
 		return // only a configuration choice is applicable at the root
 	}
-	cfg := allConfigs[strings.TrimPrefix(hist[0], "cfg:")]
-	if cfg == nil {
+	cfgID, lenStr, _ := strings.Cut(strings.TrimPrefix(hist[0], "cfg:"), "@")
+	cfgMaxLen, _ := strconv.Atoi(lenStr)
+	cfg := allConfigs[cfgID]
+	if cfg == nil || cfgMaxLen <= 0 {
 		res.Fail("harness:bad-spec", "unknown configuration in "+spec)
 		return
 	}
@@ -580,7 +594,7 @@ func exec(spec string) (res engine.Result) {
 		outcome = append(outcome, obs.digest())
 	}
 	res.Outcome = canonKey(strings.Join(outcome, ";"))
-	if cfg.maxLen == 0 || len(hist)-1 < cfg.maxLen {
+	if len(hist)-1 < cfgMaxLen {
 		res.Enabled = cfg.enabled(m)
 	} // else: no successor is applicable (only cfg: operations are offered, and they are rejected)
 	return
@@ -830,7 +844,15 @@ func (ck *checker) check(how, args string, ex expect, obs callObs, path string, 
 			if even {
 				k = append(k, fmt.Sprintf("skipped-every-second-of-%d", len(expIns)))
 			} else {
-				k = append(k, "skipped-other")
+				viaP := false
+				for _, t := range obsIns {
+					viaP = viaP || t[0] == 'n'
+				}
+				if viaP {
+					k = append(k, "skipped-after-next-method-p")
+				} else {
+					k = append(k, "skipped-other")
+				}
 			}
 		}
 		if extra {
